@@ -70,7 +70,7 @@ func classify(it *item, q qnode, par any, l, r res, lc, rc []string) (sig, why s
 	case vt == "number" && canon(it.rhs, cmode{}) == "-9223372036854775808" && inSet(q.text, "-(.)", ". * $p", "$p * .", ". / $p", "length") && lOK && rOK && lc[0] == "9223372036854775808" && rc[0] == "-9223372036854775808":
 		return "min-int64-negation-wraps-on-the-json-number", "negating the smallest 64 bit integer: the decode value (big integer) gives 2^63, the JSON value (machine integer) wraps around"
 
-	case q.text == `. as $x | [1,"a",null,"sym",5,[1]] | index($x)` && vt == "array" && it.isDV && lOK && rOK && lc[0] == "null" && rc[0] != "null":
+	case q.text == `. as $x | [1,"a",null,"sym",5,[1]] | index($x)` && vt == "array" && it.isDV && lOK && rOK && lc[0] != rc[0] && lc[0] == elementIndex([]any{1, "a", nil, "sym", 5, []any{1}}, it.rhs):
 		return "array-decode-value-as-index-argument-is-not-searched-as-subarray", "index(array) searches the subarray for the JSON array"
 	}
 	kind := "value"
@@ -89,4 +89,17 @@ func classify(it *item, q qnode, par any, l, r res, lc, rc []string) (sig, why s
 		p = ":" + paramClass(par, it)
 	}
 	return fmt.Sprintf("diff:%s:%s:%s:%s%s", kind, where, vt, q.text, p), "results differ"
+}
+
+
+// elementIndex: what index(x) gives when an array argument is looked for as one ELEMENT
+// (the behaviour of the recorded finding): the first i with hay[i] == x, else null.
+func elementIndex(hay []any, x any) string {
+	want := canon(x, cmode{})
+	for i, h := range hay {
+		if canon(h, cmode{}) == want {
+			return fmt.Sprint(i)
+		}
+	}
+	return "null"
 }
